@@ -48,6 +48,22 @@ def make_world(tag, seq, opt):
         b = w.add(call(kind, 2, 2, i))
         pairs.append((a, b, kind))
 
+    # a second execution of the same test (-count=2) through the same two Configs: the first calls present CHANGED
+    # values (a mismatch: one failure, nothing written), then further calls record NEW snapshots - what a call does
+    # must not depend on how an earlier call through the same Config ended
+    if len(seq) % 2 == 0 or len(seq) > 3:
+        w.add('end 1')
+        w.add('end 2')
+        w.add('begin 1 %s' % hx(b'TestCfg'))
+        w.add('begin 2 %s' % hx(b'TestCfg'))
+        seq2 = list(seq) + list(seq)[:2]
+        for i, kind in enumerate(seq2):
+            v = 1000 + i if i < 1 + len(seq) // 2 else i      # changed for the first calls, then as recorded / new
+            a = w.add(call(kind, 1, 1, v))
+            w.add(cfg_line(2, 'fresh', fn, ext))
+            b = w.add(call(kind, 2, 2, v))
+            pairs.append((a, b, kind))
+
     # "A;B on one Config compared with B alone": the calls of each entry point once more, WITHOUT the other
     # entry points, through a Config with the same options in a directory of its own.  (With Ext set the
     # two standalone variants share one location pattern <name>_%d.snap<Ext>, hence one ordinal sequence:
